@@ -20,6 +20,13 @@ typedef struct vf_kt KT;
 #define MK(T, name, n, MAX) T *name = (T *)VF_ALLOC((ul)(n) * sizeof(T)); for (int vf_i_##name = 0; vf_i_##name < (MAX); ++vf_i_##name) if (vf_i_##name < (n)) name[vf_i_##name] = name##_in[vf_i_##name]
 /* output buffer of exactly n elements (n: a SPLIT constant), contents indeterminate */
 #define OUT(T, name, n) T *name = (T *)VF_ALLOC((ul)(n) * sizeof(T))
+/* Two-range algorithms: (L+1)^2 SPLIT branches are too expensive.  They use one block of MAX elements per range instead and place
+ * the range [name, name+n) at the START of its block (hi == 0: an access before first is out of bounds) or at its END (hi == 1: an access
+ * behind last is out of bounds); hi is symbolic and the algorithm does not depend on it, so any access outside the range is an
+ * out-of-bounds failure in one of the two placements.  The slack part of the block is never initialised. */
+#define ALIGN VF_INPUT_BOOL(hi)
+#define EMK(T, name, n, MAX) T *name##_blk = (T *)VF_ALLOC((MAX) * sizeof(T)); T *name = name##_blk + (hi ? (MAX) - (n) : 0); for (int vf_i_##name = 0; vf_i_##name < (MAX); ++vf_i_##name) if (vf_i_##name < (n)) name[vf_i_##name] = name##_in[vf_i_##name]
+#define EOUT(T, name, n, MAX) T *name##_blk = (T *)VF_ALLOC((MAX) * sizeof(T)); T *name = name##_blk + (hi ? (MAX) - (n) : 0)
 #define LEN(n, L) VF_INPUT(unsigned char, n); VF_ASSUME(n <= (L))
 /* selector of a comparator / predicate (see driver.cpp): symbolic in [LO, HI] */
 #define SEL(c, LO, HI) VF_INPUT(unsigned char, c); VF_ASSUME(c >= (LO) && c <= (HI))
@@ -98,7 +105,7 @@ static _Bool pred1(int p, int x) { return p == 0 ? (x & 3) == 0 : (p == 1 ? x < 
 
 /* ---- sorting [alg.sort]: sorted + permutation (count of a ghost value g unchanged: sound for all values) -------------------- */
 #define PERM_G(L, n) { int gb = 0, ga = 0; FORK(k, L, n) { gb += a_in[k] == g; ga += a[k] == g; } VF_ASSERT(ga == gb, "permutation: every value occurs as often as before"); }
-#define B_SORT(L, CALL, CLO, CHI) { LEN(n, L); SEL(c, CLO, CHI); VF_INPUT(int, g); IN(int, a, L); WIN(c == 3, a_in, L, ); \
+#define B_SORT(L, CALL, CLO, CHI, NMIN) { LEN(n, L); VF_ASSUME(n >= (NMIN)); SEL(c, CLO, CHI); VF_INPUT(int, g); IN(int, a, L); WIN(c == 3, a_in, L, ); \
   SPLIT(n, L) { MK(int, a, n, L); \
     CALL(a, a + n, c); \
     PERM_G(L, n) \
@@ -156,8 +163,8 @@ static _Bool pred1(int p, int x) { return p == 0 ? (x & 3) == 0 : (p == 1 ? x < 
     int *r = CALL(a, a + n, b, b + m, p); \
     VF_ASSERT(r == a + idx, "search returns the first position where the needle matches (first for an empty needle), else last"); } \
   VF_REACH(); }
-#define B_FIND_END(L, CLO, CHI) { LEN(n, L); LEN(m, L); SEL(p, CLO, CHI); IN(int, a, L); IN(int, b, L); WIN(p == 2, a_in, L, ); WIN(p == 2, b_in, L, ); \
-  SPLIT(n, L) SPLIT(m, L) { MK(int, a, n, L); MK(int, b, m, L); int idx = n; \
+#define B_FIND_END(L, CLO, CHI) { LEN(n, L); LEN(m, L); SEL(p, CLO, CHI); IN(int, a, L); IN(int, b, L); WIN(p == 2, a_in, L, ); WIN(p == 2, b_in, L, ); ALIGN; \
+  { EMK(int, a, n, L); EMK(int, b, m, L); int idx = n; \
     for (int i = 0; i <= (L); ++i) { MATCH_AT(ok, i, L, m, p) if (ok && m > 0) idx = i; } \
     int *r = a_find_end(a, a + n, b, b + m, p); \
     VF_ASSERT(r == a + idx, "find_end returns the last position where the needle matches, last if none or the needle is empty"); } \
@@ -176,37 +183,37 @@ static _Bool pred1(int p, int x) { return p == 0 ? (x & 3) == 0 : (p == 1 ? x < 
     VF_ASSERT(r == a + idx, "find_first_of returns the first element that matches any element of the second range, else last"); } \
   VF_REACH(); }
 /* includes [includes]: for sorted ranges, true iff every equivalence class has at least as many members in range 1 as in range 2 */
-#define B_INCLUDES(L, CLO, CHI) { LEN(n, L); LEN(m, L); SEL(c, CLO, CHI); IN(int, a, L); IN(int, b, L); WIN(c == 3, a_in, L, ); WIN(c == 3, b_in, L, ); \
-  SPLIT(n, L) SPLIT(m, L) { MK(int, a, n, L); MK(int, b, m, L); ASSUME_SORTED(c, a_in, n, L, ); ASSUME_SORTED(c, b_in, m, L, ); _Bool ok = 1; \
+#define B_INCLUDES(L, CLO, CHI) { LEN(n, L); LEN(m, L); SEL(c, CLO, CHI); IN(int, a, L); IN(int, b, L); WIN(c == 3, a_in, L, ); WIN(c == 3, b_in, L, ); ALIGN; \
+  { EMK(int, a, n, L); EMK(int, b, m, L); ASSUME_SORTED(c, a_in, n, L, ); ASSUME_SORTED(c, b_in, m, L, ); _Bool ok = 1; \
     FORK(j, L, m) { int ca = 0, cb = 0; FORK(i, L, n) ca += eqv(c, a_in[i], b_in[j]); FORK(k, L, m) cb += eqv(c, b_in[k], b_in[j]); if (cb > ca) ok = 0; } \
     _Bool r = a_includes(a, a + n, b, b + m, c); \
     VF_ASSERT(r == ok, "includes: true iff the second sorted range is a sub-multiset of the first (true for an empty second range)"); } \
   VF_REACH(); }
 
 /* ---- merge / inplace_merge [alg.merge]: the final position of every element in closed form (sorted, stable, range 1 first) ---- */
-#define B_MERGE(L, CLO, CHI) { LEN(na, L); LEN(nb, L); SEL(c, CLO, CHI); KTIN(a, L, 0); KTIN(b, L, 100); WIN(c == 3, a_in, L, .key); WIN(c == 3, b_in, L, .key); \
-  SPLIT(na, L) SPLIT(nb, L) { MK(KT, a, na, L); MK(KT, b, nb, L); ASSUME_SORTED(c, a_in, na, L, .key); ASSUME_SORTED(c, b_in, nb, L, .key); OUT(KT, d, na + nb); \
+#define B_MERGE(L, CLO, CHI) { LEN(na, L); LEN(nb, L); SEL(c, CLO, CHI); KTIN(a, L, 0); KTIN(b, L, 100); WIN(c == 3, a_in, L, .key); WIN(c == 3, b_in, L, .key); ALIGN; \
+  { EMK(KT, a, na, L); EMK(KT, b, nb, L); ASSUME_SORTED(c, a_in, na, L, .key); ASSUME_SORTED(c, b_in, nb, L, .key); EOUT(KT, d, na + nb, 2 * (L)); \
     KT *r = a_merge(a, a + na, b, b + nb, d, c); \
     VF_ASSERT(r == d + (na + nb), "merge returns result + (last1 - first1) + (last2 - first2)"); \
     FORK(i, L, na) { int pos = i; FORK(j, L, nb) pos += lt(c, b_in[j].key, a_in[i].key); VF_ASSERT(KTEQ(d[pos], a_in[i]), "merge: a[i] lands behind exactly the elements of range 2 that are less than it"); VF_ASSERT(KTEQ(a[i], a_in[i]), "merge leaves range 1 unchanged"); } \
     FORK(j, L, nb) { int pos = j; FORK(i, L, na) pos += !lt(c, b_in[j].key, a_in[i].key); VF_ASSERT(KTEQ(d[pos], b_in[j]), "merge: b[j] lands behind exactly the elements of range 1 that are not greater than it"); VF_ASSERT(KTEQ(b[j], b_in[j]), "merge leaves range 2 unchanged"); } } \
   VF_REACH(); }
-#define B_MERGE_INT(L, CALL) { LEN(na, L); LEN(nb, L); IN(int, a, L); IN(int, b, L); \
-  SPLIT(na, L) SPLIT(nb, L) { MK(int, a, na, L); MK(int, b, nb, L); ASSUME_SORTED(0, a_in, na, L, ); ASSUME_SORTED(0, b_in, nb, L, ); OUT(int, d, na + nb); \
+#define B_MERGE_INT(L, CALL) { LEN(na, L); LEN(nb, L); IN(int, a, L); IN(int, b, L); ALIGN; \
+  { EMK(int, a, na, L); EMK(int, b, nb, L); ASSUME_SORTED(0, a_in, na, L, ); ASSUME_SORTED(0, b_in, nb, L, ); EOUT(int, d, na + nb, 2 * (L)); \
     int *r = CALL(a, a + na, b, b + nb, d); \
     VF_ASSERT(r == d + (na + nb), "merge returns result + (last1 - first1) + (last2 - first2)"); \
     FORK(i, L, na) { int pos = i; FORK(j, L, nb) pos += b_in[j] < a_in[i]; VF_ASSERT(d[pos] == a_in[i], "merge: a[i] lands behind exactly the elements of range 2 that are less than it"); } \
     FORK(j, L, nb) { int pos = j; FORK(i, L, na) pos += !(b_in[j] < a_in[i]); VF_ASSERT(d[pos] == b_in[j], "merge: b[j] lands behind exactly the elements of range 1 that are not greater than it"); } } \
   VF_REACH(); }
-#define B_INPLACE_MERGE(L, CLO, CHI) { LEN(n, L); VF_INPUT(unsigned char, m); VF_ASSUME(m <= n); SEL(c, CLO, CHI); KTIN(a, L, 0); WIN(c == 3, a_in, L, .key); \
-  SPLIT(n, L) SPLIT(m, L) { MK(KT, a, n, L); \
+#define B_INPLACE_MERGE(L, CLO, CHI) { LEN(n, L); VF_INPUT(unsigned char, m); VF_ASSUME(m <= n); SEL(c, CLO, CHI); KTIN(a, L, 0); WIN(c == 3, a_in, L, .key); ALIGN; \
+  { EMK(KT, a, n, L); \
     FORK(k, (L) - 1, n - 1) if (k + 1 != m) VF_ASSUME(!lt(c, a_in[k + 1].key, a_in[k].key)); \
     a_inplace_merge(a, a + m, a + n, c); \
     FORK(i, L, m) { int pos = i; FORK(j, L, n) if (j >= m) pos += lt(c, a_in[j].key, a_in[i].key); VF_ASSERT(KTEQ(a[pos], a_in[i]), "inplace_merge: an element of the first half lands behind exactly the second-half elements less than it"); } \
     FORK(j, L, n) if (j >= m) { int pos = j - m; FORK(i, L, m) pos += !lt(c, a_in[j].key, a_in[i].key); VF_ASSERT(KTEQ(a[pos], a_in[j]), "inplace_merge: an element of the second half lands behind exactly the first-half elements not greater than it"); } } \
   VF_REACH(); }
-#define B_INPLACE_MERGE_INT(L) { LEN(n, L); VF_INPUT(unsigned char, m); VF_ASSUME(m <= n); VF_INPUT(int, g); IN(int, a, L); \
-  SPLIT(n, L) SPLIT(m, L) { MK(int, a, n, L); \
+#define B_INPLACE_MERGE_INT(L) { LEN(n, L); VF_INPUT(unsigned char, m); VF_ASSUME(m <= n); VF_INPUT(int, g); IN(int, a, L); ALIGN; \
+  { EMK(int, a, n, L); \
     FORK(k, (L) - 1, n - 1) if (k + 1 != m) VF_ASSUME(!(a_in[k + 1] < a_in[k])); \
     a_inplace_merge_int(a, a + m, a + n); \
     PERM_G(L, n) \
@@ -228,21 +235,21 @@ static int ref_setop(int op, int c, const KT *a, int na, const KT *b, int nb, KT
     }
     return w;
 }
-#define B_SETOP(L, OP, CALL, WHAT, CLO, CHI) { LEN(na, L); LEN(nb, L); SEL(c, CLO, CHI); KTIN(a, L, 0); KTIN(b, L, 100); WIN(c == 3, a_in, L, .key); WIN(c == 3, b_in, L, .key); \
-  SPLIT(na, L) SPLIT(nb, L) { MK(KT, a, na, L); MK(KT, b, nb, L); ASSUME_SORTED(c, a_in, na, L, .key); ASSUME_SORTED(c, b_in, nb, L, .key); \
+#define B_SETOP(L, OP, CALL, WHAT, CLO, CHI) { LEN(na, L); LEN(nb, L); SEL(c, CLO, CHI); KTIN(a, L, 0); KTIN(b, L, 100); WIN(c == 3, a_in, L, .key); WIN(c == 3, b_in, L, .key); ALIGN; \
+  { EMK(KT, a, na, L); EMK(KT, b, nb, L); ASSUME_SORTED(c, a_in, na, L, .key); ASSUME_SORTED(c, b_in, nb, L, .key); \
     KT e[2 * (L) + 1]; int ne = ref_setop(OP, c, a_in, na, b_in, nb, e, 2 * (L)); \
-    SPLIT(ne, 2 * (L)) { OUT(KT, d, ne); \
+    { EOUT(KT, d, ne, 2 * (L)); \
       KT *r = CALL(a, a + na, b, b + nb, d, c); \
       VF_ASSERT(r == d + ne, WHAT " returns the end of the constructed range"); \
       FORK(k, 2 * (L), ne) VF_ASSERT(KTEQ(d[k], e[k]), WHAT ": the output is the standard's sorted result, equivalent elements taken from the prescribed range"); \
       FORK(i, L, na) VF_ASSERT(KTEQ(a[i], a_in[i]), WHAT " leaves range 1 unchanged"); FORK(j, L, nb) VF_ASSERT(KTEQ(b[j], b_in[j]), WHAT " leaves range 2 unchanged"); } } \
   VF_REACH(); }
 /* default-comparator overloads over int: compared with the same reference on keys */
-#define B_SETOP_INT(L) { LEN(na, L); LEN(nb, L); SEL(op, 0, 3); KTIN(ka, L, 0); KTIN(kb, L, 100); \
-  SPLIT(na, L) SPLIT(nb, L) { ASSUME_SORTED(0, ka_in, na, L, .key); ASSUME_SORTED(0, kb_in, nb, L, .key); \
-    OUT(int, a, na); OUT(int, b, nb); FORK(i, L, na) a[i] = ka_in[i].key; FORK(j, L, nb) b[j] = kb_in[j].key; \
+#define B_SETOP_INT(L) { LEN(na, L); LEN(nb, L); SEL(op, 0, 3); KTIN(ka, L, 0); KTIN(kb, L, 100); ALIGN; \
+  { ASSUME_SORTED(0, ka_in, na, L, .key); ASSUME_SORTED(0, kb_in, nb, L, .key); \
+    EOUT(int, a, na, L); EOUT(int, b, nb, L); FORK(i, L, na) a[i] = ka_in[i].key; FORK(j, L, nb) b[j] = kb_in[j].key; \
     KT e[2 * (L) + 1]; int ne = ref_setop(op, 0, ka_in, na, kb_in, nb, e, 2 * (L)); \
-    SPLIT(ne, 2 * (L)) { OUT(int, d, ne); \
+    { EOUT(int, d, ne, 2 * (L)); \
       int *r = a_set_ops_int(op, a, a + na, b, b + nb, d); \
       VF_ASSERT(r == d + ne, "set_union/intersection/difference/symmetric_difference (operator<) return the end of the constructed range"); \
       FORK(k, 2 * (L), ne) VF_ASSERT(d[k] == e[k].key, "set operations (operator<): the output is the standard's sorted result"); } } \
@@ -307,33 +314,33 @@ void h_partition_copy(void) B_PARTITION_COPY(4)
 /*@GROUP name=partition_copy_t props=C06,C02 kind=B bound=len<=6 unwind=9 solver=kissat tier=thorough@*/
 void h_partition_copy_t(void) B_PARTITION_COPY(6)
 /*@GROUP name=sort props=C06,C02 kind=B bound=len<=4 unwind=19 solver=kissat@*/
-void h_sort(void) B_SORT(4, a_sort, 0, 2)
+void h_sort(void) B_SORT(4, a_sort, 0, 2, 0)
 /*@GROUP name=sort_t props=C06,C02 kind=B bound=len<=6 unwind=39 solver=kissat tier=thorough@*/
-void h_sort_t(void) B_SORT(6, a_sort, 0, 2)
+void h_sort_t(void) B_SORT(6, a_sort, 0, 2, 0)
 /*@GROUP name=sort_mod3 props=C06,C02 kind=B bound=len<=4,values_in_[-4,4] unwind=19 solver=kissat@*/
-void h_sort_mod3(void) B_SORT(4, a_sort, 3, 3)
+void h_sort_mod3(void) B_SORT(4, a_sort, 3, 3, 0)
 /*@GROUP name=sort_mod3_t props=C06,C02 kind=B bound=len<=6,values_in_[-4,4] unwind=39 solver=kissat tier=thorough@*/
-void h_sort_mod3_t(void) B_SORT(6, a_sort, 3, 3)
+void h_sort_mod3_t(void) B_SORT(6, a_sort, 3, 3, 0)
 /*@GROUP name=gnome_sort props=C06,C02 kind=B bound=len<=4 unwind=19 solver=kissat@*/
-void h_gnome_sort(void) B_SORT(4, a_gnome_sort, 0, 2)
+void h_gnome_sort(void) B_SORT(4, a_gnome_sort, 0, 2, 0)
 /*@GROUP name=gnome_sort_t props=C06,C02 kind=B bound=len<=6 unwind=39 solver=kissat tier=thorough@*/
-void h_gnome_sort_t(void) B_SORT(6, a_gnome_sort, 0, 2)
-/*@GROUP name=gnome_sort_ra props=C06,C02 kind=B bound=len<=4 unwind=19 solver=kissat objbits=13@*/
-void h_gnome_sort_ra(void) B_SORT(4, a_gnome_sort_ra, 0, 2)
+void h_gnome_sort_t(void) B_SORT(6, a_gnome_sort, 0, 2, 0)
+/*@GROUP name=gnome_sort_ra props=C06,C02 kind=B bound=len<=4 unwind=19 solver=kissat@*/
+void h_gnome_sort_ra(void) B_SORT(4, a_gnome_sort_ra, 0, 2, 0)
 /*@GROUP name=gnome_sort_ra_t props=C06,C02 kind=B bound=len<=6 unwind=39 solver=kissat tier=thorough@*/
-void h_gnome_sort_ra_t(void) B_SORT(6, a_gnome_sort_ra, 0, 2)
+void h_gnome_sort_ra_t(void) B_SORT(6, a_gnome_sort_ra, 0, 2, 0)
 /*@GROUP name=gnome_sort_bidi props=C06,C02 kind=B bound=len<=4 unwind=19 solver=kissat@*/
-void h_gnome_sort_bidi(void) B_SORT(4, a_gnome_sort_bidi, 0, 2)
+void h_gnome_sort_bidi(void) B_SORT(4, a_gnome_sort_bidi, 0, 2, 0)
 /*@GROUP name=gnome_sort_bidi_t props=C06,C02 kind=B bound=len<=6 unwind=39 solver=kissat tier=thorough@*/
-void h_gnome_sort_bidi_t(void) B_SORT(6, a_gnome_sort_bidi, 0, 2)
+void h_gnome_sort_bidi_t(void) B_SORT(6, a_gnome_sort_bidi, 0, 2, 0)
 /*@GROUP name=bubble_sort props=C06,C02 kind=B bound=len<=4 unwind=7 solver=kissat@*/
-void h_bubble_sort(void) B_SORT(4, a_bubble_sort, 0, 2)
+void h_bubble_sort(void) B_SORT(4, a_bubble_sort, 0, 2, 0)
 /*@GROUP name=bubble_sort_t props=C06,C02 kind=B bound=len<=6 unwind=9 solver=kissat tier=thorough@*/
-void h_bubble_sort_t(void) B_SORT(6, a_bubble_sort, 0, 2)
+void h_bubble_sort_t(void) B_SORT(6, a_bubble_sort, 0, 2, 0)
 /*@GROUP name=exchange_sort props=C06,C02 kind=B bound=len<=4 unwind=7 solver=kissat@*/
-void h_exchange_sort(void) B_SORT(4, a_exchange_sort, 0, 2)
+void h_exchange_sort(void) B_SORT(4, a_exchange_sort, 0, 2, 1)
 /*@GROUP name=exchange_sort_t props=C06,C02 kind=B bound=len<=6 unwind=9 solver=kissat tier=thorough@*/
-void h_exchange_sort_t(void) B_SORT(6, a_exchange_sort, 0, 2)
+void h_exchange_sort_t(void) B_SORT(6, a_exchange_sort, 0, 2, 1)
 /*@GROUP name=partial_sort props=C06,C02 kind=B bound=len<=4 unwind=19 solver=kissat@*/
 void h_partial_sort(void) B_PARTIAL_SORT(4, 0, 2)
 /*@GROUP name=partial_sort_t props=C06,C02 kind=B bound=len<=6 unwind=39 solver=kissat tier=thorough@*/
